@@ -196,6 +196,10 @@ static bool read_preface(zckCtx *zck) {
             if(!compint_to_size(zck, &data_size, header+length, &length,
                                 max_length))
                 return false;
+            if(data_size > max_length - length) {
+                set_fatal_error(zck, "Read past end of header");
+                return false;
+            }
             if(!read_optional_element(zck, id, data_size, header+length))
                 return false;
             length += data_size;
@@ -228,7 +232,7 @@ static bool read_index(zckCtx *zck) {
     }
     header = zck->header + zck->lead_size + zck->preface_size;
     zck_log(ZCK_LOG_DEBUG, "Reading index at 0x%x", (unsigned long)(zck->lead_size + zck->preface_size));
-    int max_length = zck->header_size - (zck->lead_size + zck->preface_size);
+    size_t max_length = zck->header_size - (zck->lead_size + zck->preface_size);
     if(!index_read(zck, header, zck->index_size, max_length))
         return false;
 
